@@ -178,8 +178,19 @@ func RunParent(propID, tier string, seed int64, rootDir, only string) int {
 				cmd.SysProcAttr.Credential = p.Credential(tier, i)
 			}
 			if err := cmd.Start(); err != nil {
-				stats[i].err = err
-				return
+				if cmd.SysProcAttr.Credential != nil && os.IsPermission(err) {
+					// the binary is not reachable for the unprivileged uid (e.g. the tree lives below
+					// a 0700 directory): run the shard without the uid drop and tell the worker
+					cmd = exec.Command(bin, args...)
+					cmd.Dir, cmd.Stdout, cmd.Stderr = wdir, devnull, errf
+					cmd.Env = append(os.Environ(), "VERIF_WORKER=1", "VERIF_UIDDROP_UNAVAILABLE=1")
+					cmd.SysProcAttr = &syscall.SysProcAttr{Setpgid: true}
+					err = cmd.Start()
+				}
+				if err != nil {
+					stats[i].err = err
+					return
+				}
 			}
 			done := make(chan error, 1)
 			go func() { done <- cmd.Wait() }()
